@@ -105,4 +105,16 @@ META = {
         "note": _TB + "; a genuine 64-bit collision would be reported (expected ~1e-7 per run)",
         "technique": "runtime monitoring: sensitivity oracle over one-edit pairs + offline join of per-process hash logs",
     },
+    "C15": {
+        "level": "runtime monitor with an independent JSON parser (serde_json) as oracle: random SourceMap values with hostile strings are serialised by to_json / to_writer, parsed independently and by the three crate entry points; hand-spelled documents (nulls, missing arrays, shuffled keys, \\u escapes, surrogate pairs) are parsed by the crate and compared with the expected value",
+        "design_ref": "DESIGN.md section 4, C15",
+        "note": _TB + "; serde_json is the trusted JSON oracle",
+        "technique": "runtime monitoring: differential round-trip against an independent JSON implementation",
+    },
+    "C17": {
+        "level": "runtime monitor for totality: every panic inside the library (caught per case, attributed by backtrace to library vs harness, keyed by function and kind) and every worker death (abort, allocation failure under an address-space cap, watchdog) is a violation; three hostile input families (mappings strings, parser bytes, source trees with wild maps) run in an overflow-checked debug build and in a release build",
+        "design_ref": "DESIGN.md section 4, C17",
+        "note": _TB + "; hangs are bounded by a per-shard watchdog (inconclusive unless the case reproduces alone); one known finding (non-ASCII nested ReplaceSource column overflow)",
+        "technique": "runtime monitoring: panic / crash / resource monitor over hostile inputs in debug and release builds",
+    },
 }
